@@ -25,9 +25,12 @@ func c02ConcBody(sch core.Schedule, total int64, nCallers, opsPer int, finishAt 
 // lie at finishAt (the parts in between have no tokens).
 func c02ConcBodyParts(sch core.Schedule, total int64, nCallers, opsPer int, finishAt int64, firstCount int64, start int64) {
 	res := make([][]c02Res, nCallers)
-	var wg sync.WaitGroup
 	for c := 0; c < nCallers; c++ {
 		res[c] = make([]c02Res, opsPer)
+	}
+	vRaceBegin()
+	var wg sync.WaitGroup
+	for c := 0; c < nCallers; c++ {
 		wg.Add(1)
 		go func(c int) {
 			defer wg.Done()
@@ -43,6 +46,7 @@ func c02ConcBodyParts(sch core.Schedule, total int64, nCallers, opsPer int, fini
 		}(c)
 	}
 	wg.Wait()
+	vRaceCheck("K0.schedule.race.free")
 	okCount := int64(0)
 	draws := int64(0)
 	atStart := int64(0)
@@ -179,5 +183,85 @@ func HarnessC02ConcBeforeUnlimited() {
 		exp = draws
 	}
 	vCheck("K1.bounded.tokens.exactly.once", bounded == exp)
+	vReach("end")
+}
+
+// A lazily started unlimited(d) profile shared by two instances (the common `rps: unlimited`
+// pool): while one caller's first Next() is starting the profile, another caller's Left()
+// (Waiter.IsFinished) must not report 0 - the profile has d of unknown tokens ahead. Left() == 0
+// is allowed only once the clock has reached start+d, and the first tokens are handed out.
+func HarnessC02ConcUnlimitedLazy() {
+	d := time.Duration(vNondetInt("d", 1_000_000_000, 10_000_000_000))
+	t0 := vNondetTime("t0")
+	vSetClock(vTimeNs(t0))
+	sch := NewUnlimited(d)
+	var wg sync.WaitGroup
+	wg.Add(2)
+	go func() {
+		defer wg.Done()
+		tx, ok := sch.Next()
+		if vClock() < vTimeNs(t0)+int64(d) {
+			vCheck("K7.unlimited.first.token", ok && vTimeNs(tx) >= vTimeNs(t0))
+		}
+	}()
+	go func() {
+		defer wg.Done()
+		for i := 0; i < 2; i++ {
+			left := sch.Left()
+			if left == 0 {
+				vCheck("K7.unlimited.left.zero.only.when.over", vClock() >= vTimeNs(t0)+int64(d))
+			} else {
+				vCheck("K7.unlimited.left.unknown", left < 0)
+			}
+		}
+	}()
+	wg.Wait()
+	vReach("end")
+}
+
+// A lazily started leaf profile (once / const) shared by two instances: the first Next() starts
+// it "now"; no caller - however it interleaves with that start - gets a token dated before the
+// start or after start+duration, and the tokens are handed out exactly once.
+func HarnessC02ConcLazyLeaf() {
+	n := vConcretize(vNondetInt("n", 1, 3))
+	t0 := vNondetTime("t0")
+	vSetClock(vTimeNs(t0))
+	var sch core.Schedule
+	dur := int64(0)
+	if vNondetBool("const") {
+		dur = int64(time.Second)
+		sch = NewConst(float64(n), time.Second)
+	} else {
+		sch = NewOnce(n)
+	}
+	var mu sync.Mutex
+	got := 0
+	vRaceBegin()
+	var wg sync.WaitGroup
+	for c := 0; c < 2; c++ {
+		wg.Add(1)
+		go func() {
+			defer wg.Done()
+			for i := 0; i < 2; i++ {
+				tx, ok := sch.Next()
+				after := vClock()
+				vCheck("K8.lazy.not.before.start", vTimeNs(tx) >= vTimeNs(t0))
+				vCheck("K8.lazy.not.after.end", vTimeNs(tx) <= after+dur)
+				if ok {
+					mu.Lock()
+					got++
+					mu.Unlock()
+				}
+			}
+		}()
+	}
+	wg.Wait()
+	// (the start instant is written by the starting caller and read by every other one)
+	vRaceCheck("K8.lazy.start.race.free")
+	exp := int(n)
+	if exp > 4 {
+		exp = 4
+	}
+	vCheck("K8.lazy.exactly.once", got == exp)
 	vReach("end")
 }
